@@ -418,7 +418,10 @@ def install(world, serial_driver=False, prrt=True):
         pd.prrt_installed = True
     else:
         pd.prrt_installed = False
-    del rd.RadioManager._radios[:]
+    # forget dongles opened by earlier cases: the manager's registry is class-level private state (any list it holds)
+    for _v in vars(rd.RadioManager).values():
+        if isinstance(_v, list):
+            del _v[:]
     del cflib.crtp.CLASSES[:]
     cflib.crtp.init_drivers(enable_serial_driver=serial_driver)
     return cflib.crtp
